@@ -502,6 +502,26 @@ def setMeta (e : Editor D L) (t k : Nat) : Editor D L := { e with shared := { e.
 theorem query_meta_blind (e : Editor D L) (t k : Nat) (q : Query) : (setMeta e t k).query env q = e.query env q := by
   cases q <;> rfl
 
+/-- `revalidate_selecting` (F32 repair) reads neither of them -/
+theorem revalidate_setMeta (e : Editor D L) (t k : Nat) :
+    (setMeta e t k).revalidate env = (e.revalidate env).map fun e' => setMeta e' t k := by
+  obtain ⟨sh, st⟩ := e
+  cases st with
+  | selecting s =>
+    have ht : Selecting.totalPage env s { sh with time := t, dirty := k } = Selecting.totalPage env s sh := rfl
+    simp only [Editor.revalidate, setMeta, ht]
+    cases Selecting.totalPage env s sh with
+    | ok tp =>
+      simp only
+      split
+      · rfl
+      · split <;> rfl
+    | panic q => rfl
+    | outOfFuel => rfl
+  | entering => rfl
+  | enteringSyllable => rfl
+  | highlighting m => rfl
+
 /-- the operations that neither read nor write them commute with changing them -/
 theorem simple_ops_meta_blind (e : Editor D L) (t k : Nat) (o : Op L)
     (ho : match o with
@@ -518,18 +538,22 @@ theorem simple_ops_meta_blind (e : Editor D L) (t k : Nat) (o : Op L)
   case clearSyl =>
     simp only [Editor.applyR, Editor.clearSyllableEditor, Editor.leaveIfEmpty, setMeta, Outcome.map]
     split <;> rename_i h <;> simp only [h, ↓reduceIte] <;> rfl
-  case setLayout =>
-    simp only [Editor.applyR, Editor.setLayout, Editor.leaveIfEmpty, setMeta, Outcome.map]
-    split <;> rename_i h <;> simp only [h, ↓reduceIte] <;> rfl
+  case setLayout l =>
+    have hpre : (setMeta e t k).setLayout env l = setMeta (e.setLayout env l) t k := by
+      simp only [Editor.setLayout, Editor.leaveIfEmpty, setMeta]
+      split <;> rename_i h <;> simp only [h, ↓reduceIte] <;> rfl
+    simp only [Editor.applyR, hpre, revalidate_setMeta, Outcome.map_map]
   case setOptions o =>
-    simp only [Editor.applyR, Editor.setOptions, Editor.leaveIfEmpty, setMeta, Outcome.map]
-    by_cases h1 : (e.shared.options.languageMode != o.languageMode) = true
-    · simp only [h1, ↓reduceIte]
-      by_cases h2 : (env.sylIsEmpty (env.clearSyl e.shared.syl) && e.state == St.enteringSyllable) = true <;>
-        simp only [h2, ↓reduceIte] <;> (try rfl)
-    · simp only [h1, Bool.false_eq_true, ↓reduceIte]
-      by_cases h2 : (env.sylIsEmpty e.shared.syl && e.state == St.enteringSyllable) = true <;>
-        simp only [h2, Bool.false_eq_true, ↓reduceIte] <;> (try rfl)
+    have hpre : (setMeta e t k).setOptions env o = setMeta (e.setOptions env o) t k := by
+      simp only [Editor.setOptions, Editor.leaveIfEmpty, setMeta]
+      by_cases h1 : (e.shared.options.languageMode != o.languageMode) = true
+      · simp only [h1, ↓reduceIte]
+        by_cases h2 : (env.sylIsEmpty (env.clearSyl e.shared.syl) && e.state == St.enteringSyllable) = true <;>
+          simp only [h2, ↓reduceIte] <;> (try rfl)
+      · simp only [h1, Bool.false_eq_true, ↓reduceIte]
+        by_cases h2 : (env.sylIsEmpty e.shared.syl && e.state == St.enteringSyllable) = true <;>
+          simp only [h2, Bool.false_eq_true, ↓reduceIte] <;> (try rfl)
+    simp only [Editor.applyR, hpre, revalidate_setMeta, Outcome.map_map]
 
 /-- the statement a C client cares about — a reset context against a NEW context, whose clock restarts from
     the newest stored time and whose flush level is 0 — for environments in which timestamps and flushing
